@@ -11,6 +11,7 @@ mod gen;
 mod hooks;
 mod model;
 mod runner;
+mod seq;
 mod spec;
 
 use runner::*;
@@ -26,14 +27,28 @@ fn usage() -> ! {
 
 fn run_check(id: &str, cfg: &RunCfg) -> Option<Report> {
     Some(match id {
+        "C01" => checks::hist::run(cfg, &checks::hist::C01),
+        "C02" => checks::hist::run(cfg, &checks::hist::C02),
+        "C04" => checks::hist::run(cfg, &checks::hist::C04),
+        "C04X" => checks::hist::run(cfg, &checks::hist::C04X),
         "C05" => checks::c05::run(cfg),
+        "C06" => checks::hist::run(cfg, &checks::hist::C06),
+        "C07" => checks::hist::run(cfg, &checks::hist::C07),
+        "C15" => checks::hist::run(cfg, &checks::hist::C15),
         _ => return None,
     })
 }
 
 fn replay_check(id: &str, v: &serde_json::Value) -> Option<Result<(), String>> {
     Some(match id {
+        "C01" => checks::hist::replay(&checks::hist::C01, v),
+        "C02" => checks::hist::replay(&checks::hist::C02, v),
+        "C04" => checks::hist::replay(&checks::hist::C04, v),
+        "C04X" => checks::hist::replay(&checks::hist::C04X, v),
         "C05" => checks::c05::replay(v),
+        "C06" => checks::hist::replay(&checks::hist::C06, v),
+        "C07" => checks::hist::replay(&checks::hist::C07, v),
+        "C15" => checks::hist::replay(&checks::hist::C15, v),
         _ => return None,
     })
 }
